@@ -1580,7 +1580,35 @@ fn goal_case(run: &Run, case_seed: u64) -> Option<String> {
         }
     } else {
         let spec = gen_objectives(&mut rng);
-        let doc = gen_pragmatic(&mut rng, &spec).to_string();
+        let mut doc_value = gen_pragmatic(&mut rng, &spec);
+        let epoch_dated = rng.chance(0.35);
+        if epoch_dated {
+            // service times with a fraction which is no dyadic number (routing approximations are rounded to whole seconds)
+            fn add_fractions(v: &mut Value, k: &mut usize) {
+                match v {
+                    Value::Object(m) => {
+                        if let Some(d) = m.get("duration").and_then(|d| d.as_f64()) {
+                            *k += 1;
+                            m.insert("duration".into(), json!(d + [0.1, 0.3, 0.7, 1.1, 2.3][*k % 5]));
+                        }
+                        m.values_mut().for_each(|c| add_fractions(c, k));
+                    }
+                    Value::Array(a) => a.iter_mut().for_each(|c| add_fractions(c, k)),
+                    _ => {}
+                }
+            }
+            add_fractions(&mut doc_value["plan"]["jobs"], &mut 0);
+        }
+        let mut doc = doc_value.to_string();
+        // travel times over coordinates are fractional, but next to timestamps of 1.7e9 s their low bits are rounded away and
+        // every sum over jobs or tours is exact in any order; a third of the problems is dated 1970-01-01, where schedule
+        // values keep their fraction and a fitness summed in a varying order differs in its last bits
+        if epoch_dated {
+            doc = doc.replace("2024-03-05T", "1970-01-01T");
+            run.observe("goal.time-base", "1970-01-01 (fractional schedule values)");
+        } else {
+            run.observe("goal.time-base", "2024-03-05");
+        }
         let res = run.guard(|| doc.clone().read_pragmatic());
         match res {
             Ok(Ok(p)) => ("pragmatic", doc, spec, Arc::new(p)),
@@ -1940,6 +1968,7 @@ fn main() {
         run.floor("goal multi strategy weighted-sum", run.observed("goal.multi-strategy", "weighted-sum"), 5);
         run.floor("goal cases (solomon)", run.observed("goal.case", "solomon"), 5);
     }
+    run.floor("goal cases dated 1970-01-01 with fractional service times (sums depend on their order)", run.observed("goal.time-base", "1970-01-01 (fractional schedule values)"), 50);
     run.floor("synthetic single-layer goals", run.observed("goal.class", "synthetic-single-layer"), 50);
     run.floor("synthetic multi-layer goals", run.observed("goal.class", "synthetic-multi-layer"), 20);
     run.floor("synthetic pools holding both zero signs in one layer", run.observed("goal.fitness", "layer-with-both-zero-signs-in-pool"), 50);
